@@ -1,14 +1,161 @@
-"""densified one-permutation sketchers: shared by C04, C08, C09, C13 (filled in later)"""
+"""densified one-permutation sketchers: shared by C04, C09, C13 (harness bin `dm`, TraceDens.tla, DensMinHash.tla)"""
+import json
+import os
 from common import *
+import joinfam
+
+
+def model_check(chk, quick):
+    """DensMinHash.tla: safety + termination under fairness from every occupancy pattern; the pre-repair deviation
+    (ReportEmpty = FALSE) must be refuted (lasso on the empty pattern)"""
+    tot = 0
+    for alg in ("opt", "rev"):
+        for m in ([3, 4] if quick else [2, 3, 4, 5, 6]):
+            cfg = write_cfg(os.path.join(chk.wd, "dens_%s_%d.cfg" % (alg, m)),
+                            constants=dict(M=m, Alg='"%s"' % alg, ReportEmpty=True),
+                            invariants=["Untouched", "CopiedFromPopulated", "CountOK", "Idempotent", "FailOnlyEmpty"],
+                            properties=["Terminates"])
+            res = tlc_check("DensMinHash", cfg, chk.wd, workers=4, timeout=900)
+            chk.tlc_stats(res)
+            tot += res.distinct
+        cfg = write_cfg(os.path.join(chk.wd, "dens_%s_dev.cfg" % alg),
+                        constants=dict(M=3, Alg='"%s"' % alg, ReportEmpty=False),
+                        invariants=["Untouched", "CopiedFromPopulated", "CountOK"], properties=["Terminates"])
+        tlc_check("DensMinHash", cfg, chk.wd, workers=2, timeout=300, expect_violation="Terminates")
+    chk.cov.setdefault("layer_b", {})["DensMinHash"] = dict(distinct_states=tot, deviations_refuted=["ReportEmpty=FALSE (opt, rev)"])
+    log("[%s] DensMinHash.tla: %d distinct states, safety + termination hold from every occupancy pattern; "
+        "pre-repair deviation refuted" % (chk.pid, tot))
+
+
+def dens_tags(hdr, bad):
+    return dict(alg=hdr.get("alg"), out=bad.get("out"),
+                empty=bool(bad.get("ne") is not None and hdr.get("m") is not None and bad.get("ne") == hdr.get("m")))
+
+
+def validate_dens(chk, tf, label, max_rounds=8):
+    hang = tf + ".hang"
+    if os.path.exists(hang):
+        # the harness stopped at a call that did not return: the trace is incomplete and is not validated
+        desc = json.load(open(hang))
+        chk.violation(dict(kind="hang", alg=desc.get("alg"), where=label), dict(kind="dens-hang", call=desc))
+        os.remove(hang)
+        log("[%s] %s: a call did not return within the watchdog limit: %s" % (chk.pid, label, json.dumps(desc)[:300]))
+        return 1
+    rows = read_ndjson(tf)
+    total_runs = sum(1 for r in rows if r.get("op") == "new")
+    chk.add("traces_validated_against_impl", total_runs)
+    chk.add("trace_events", len(rows) - 1 - total_runs)
+    chk.add("evaluations", len(rows) - 1 - total_runs)
+    # non-trivial: runs in which a densification really filled at least one bin from at least two populated ones
+    nt = 0
+    hdr = None
+    for r in rows[1:]:
+        if r.get("op") == "new":
+            hdr = r
+        elif r.get("op") in ("en", "sl") and r.get("ne") == 0 and len(set(r.get("it", []))) >= 2:
+            nt += 1
+    chk.add("distinct_nontrivial", nt)
+    cur = tf
+    rounds = 0
+    rejected = 0
+    wall = 0
+    while True:
+        v = validate_trace("TraceDens", cur, chk.wd, timeout=1500)
+        wall += v["wall"]
+        if v["accepted"]:
+            break
+        rounds += 1
+        rejected += 1
+        rws = read_ndjson(cur)
+        bad = rws[v["matched"]]
+        run = bad.get("run")
+        hd = [r for r in rws if r.get("op") == "new" and r.get("run") == run]
+        evs = [r for r in rws if r.get("run") == run and r.get("op") != "new"]
+        tags = dict(kind="dens", op=bad.get("op"), where=label)
+        tags.update(dens_tags(hd[0] if hd else {}, bad))
+        chk.violation(tags, dict(kind="dens-trace", label=label, header=hd[0] if hd else None, events=evs, rejected_event=bad))
+        if rounds >= max_rounds:
+            chk.notes.append("%s: more than %d rejected runs, remainder not examined" % (label, max_rounds))
+            break
+        cur = os.path.join(chk.wd, "rest_%d_%s" % (rounds, os.path.basename(tf)))
+        write_ndjson(cur, [r for r in rws if r.get("run") != run])
+    for r in rows[2:6]:
+        if r.get("op") in ("en", "sl"):
+            chk.sample(dict(label=label, **r), cap=8)
+            break
+    log("[%s] %s: %d events in %d runs, %d run(s) rejected (%.1fs TLC)" % (chk.pid, label, len(rows) - 1 - total_runs,
+                                                                           total_runs, rejected, wall))
+    return rejected
+
+
+def run_dm(chk, args, tf):
+    rc, out = harness("dm", args, timeout=1800, ok=(0, 7))
+    return rc
+
+
+def replay_schedules(chk, label, nitems, ninst, depth, maxslice, stride, ms, reinit=True, seed=None):
+    f, n, res = joinfam.gen_schedules(chk, "dens_" + label, nitems=nitems, ninst=ninst, depth=depth, maxslice=maxslice,
+                                      reinit=reinit, end=True)
+    chk.cov["schedules_" + label] = n
+    tf = os.path.join(chk.wd, "trace_dens_%s.ndjson" % label)
+    run_dm(chk, ["replay", "in=" + f, "out=" + tf, "seed=%d" % (chk.seed if seed is None else seed), "stride=%d" % stride,
+                 "ms=" + ",".join(str(m) for m in ms)], tf)
+    return validate_dens(chk, tf, label)
+
+
+def patterns(chk, ms):
+    """every occupancy pattern (2^m, incl. the empty one) for both algorithms and float types"""
+    tot = 0
+    for m in ms:
+        tf = os.path.join(chk.wd, "trace_patterns_%d.ndjson" % m)
+        run_dm(chk, ["patterns", "out=" + tf, "m=%d" % m, "seed=%d" % chk.seed], tf)
+        validate_dens(chk, tf, "patterns-m%d" % m)
+        tot += 4 * (2 ** m)
+    chk.cov["occupancy_patterns_realised"] = tot
+    return tot
+
+
+def big(chk, thorough):
+    of = os.path.join(chk.wd, "big.json")
+    rc, out = harness("dm", ["big", "out=" + of, "seed=%d" % chk.seed, "thorough=%d" % (1 if thorough else 0)],
+                      timeout=1800, ok=(0, 7))
+    if rc == 7:
+        desc = json.load(open(of + ".hang"))
+        chk.violation(dict(kind="hang", alg=desc.get("alg"), where="big"), dict(kind="dens-hang", call=desc))
+        return
+    r = json.load(open(of))
+    for c in r["cases"]:
+        chk.add("evaluations", 1)
+        if c["bad"]:
+            chk.violation(dict(kind="dens-big", alg=c["alg"], what=c["bad"][0].split(" ")[0]), dict(kind="dens-big", case=c, seed=chk.seed))
+    chk.cov["large_cases"] = len(r["cases"])
+    log("[%s] large sketches: %d cases (m up to %d), %d bad" % (chk.pid, len(r["cases"]), max(c["m"] for c in r["cases"]),
+                                                                sum(1 for c in r["cases"] if c["bad"])))
 
 
 def c04_part(chk, quick):
-    chk.notes.append("densified sketchers: see C09 (shared machinery)")
-
-
-def replay_one(chk, path, pid):
-    return 2
+    build_harness("dm")
+    replay_schedules(chk, "c04", nitems=3, ninst=2, depth=3, maxslice=3, stride=25 if quick else 3, ms=[1, 2, 3, 5, 16], reinit=False)
+    patterns(chk, [3, 4] if quick else [2, 3, 4, 5, 6])
 
 
 def c13_part(chk, quick):
-    chk.notes.append("densified sketchers: reinit histories are part of C09's schedules")
+    build_harness("dm")
+    replay_schedules(chk, "c13", nitems=3, ninst=1, depth=4, maxslice=2, stride=40 if quick else 4, ms=[1, 2, 3, 5], reinit=True)
+
+
+def replay_one(chk, path, pid):
+    sc = json.load(open(path))["scenario"]
+    if sc.get("kind") == "dens-trace":
+        tf = os.path.join(chk.wd, "one.ndjson")
+        write_ndjson(tf, [dict(kind="dens"), sc["header"]] + sc["events"])
+        v = validate_trace("TraceDens", tf, chk.wd)
+        log("recorded run re-validated by TLC: accepted=%s (first unmatched event index %d)" % (v["accepted"], v["matched"]))
+        if not v["accepted"]:
+            log("VIOLATION property=%s replay=%s" % (pid, path))
+        return 0 if v["accepted"] else 1
+    if sc.get("kind") in ("dens-hang", "dens-big"):
+        log("scenario: %s" % json.dumps(sc)[:2000])
+        log("re-run ./check %s with the same VERIF_SEED to reproduce on the current tree" % pid)
+        return 1
+    return None
